@@ -12,7 +12,7 @@ func init() {
 		ID: "C05", Level: "exploration",
 		Rule: "one case = 1-3 writer tasks (single Handle/Update/Delete and multi-route transactions ended by commit, abort, error or injected panic) and 1-3 reader tasks (ServeHTTP with yields inside the handler, Lookup, Reverse, Has, Route, Len, Iter.All, View) on 3-6 keys that share tree nodes, every written route carrying a unique tag; the seeded scheduler decides every switch at the fox yield points (acquire, locked, before/after load, commit, stored, unlocked, abort) and at harness yields; the recorded invoke/return history plus a final audit is checked with porcupine against a sequential map + reference dispatcher; any panic is a violation; in HB mode the same schedules run under the race detector with simulator hand-offs hidden. Non-trivial: at least one context switch happened while a writer was between lock and unlock or a reader was parked between its tree load and its use; distinct = hash of (programs, schedule).",
 		Run:  runC05, HBRun: runC05,
-		Quick: 40000, Thorough: 3000000, QuickHB: 6000, ThoroughHB: 300000,
+		Quick: 96000, Thorough: 16000000, QuickHB: 12000, ThoroughHB: 1600000,
 		Real: commonReal, Stub: commonStub,
 		Domain:      []string{"<= 6 keys from fixed families of node-sharing patterns, <= 6 tasks, <= 40 operations per run (porcupine tractability)", "trailing-slash options off in this check (decided by C08)"},
 		Assumptions: []string{"porcupine v1.3.0 decides linearizability of the recorded history; Unknown (timeout) is counted, never reported"},
